@@ -20,7 +20,7 @@ static const char* FN[6] = {"F", "E", "D", "Pi", "G", "H"};
 
 static const double K_ELL = 32;       // relative error of an integral [eps]
 static const double K_JAC = 16;       // Jacobi functions: absolute error in units of eps * (|value| + conditioning)
-static const double K_CARLSON = 16;
+static const double K_CARLSON = 32;
 
 static const double LADDER[] = {-1e6, -100, -1, -1e-9, 0, 1e-9, 0.5, 1 - 1e-3, 1 - 1e-9, 1 - 1e-15, 1};
 static const int NL = 11;
@@ -103,8 +103,8 @@ static void sec_legendre(Ctx& c, uint64_t) {
       c.obs(std::string("complete ") + FN[i] + " rel err / cancellation conditioning [eps]", e / cond, w);
       if (!(e <= K_ELL * cond)) {
         std::string key = std::string("oracle:C15/elliptic/complete/") + FN[i];
-        if (O.four && i == ref::EL_G && O.kp2 < 1e-3 && O.ap2 < 1e-3) key = "oracle:C15/elliptic/G/4-arg-ctor-alpha2-minus-k2-cancellation";
-        else if (i >= 3 && rj_stressed(O) && e <= 1e7 * cond) key = RJKEY;
+        if (O.four && i == ref::EL_G && O.kp2 < 0.1 && O.ap2 < 0.1) key = "oracle:C15/elliptic/G/4-arg-ctor-alpha2-minus-k2-cancellation";
+        else if (i >= 3 && rj_stressed(O) && e <= 1e9 * cond) key = RJKEY;
         c.viol(key, cls, w);
       }
     }
@@ -132,6 +132,7 @@ static void sec_legendre(Ctx& c, uint64_t) {
       if (!(ed <= 8)) c.viol("oracle:C15/elliptic/Delta", cls, J(jobj(O)).f("phi", phi).f("got", dn).str("want", ref::qstr(R.delta(sq, cq)))); }
     // (sn,cn,dn) overloads are "as though phi in (-pi,pi]": reference at atan2(sn,cn)
     QV<6> W3 = R.at_sc((q128)sn, (q128)cn);
+    QV<6> Wq = R.at_sc(fabsq((q128)sn), fabsq((q128)cn));      // the first-quadrant piece that the library actually forms from R_F, R_D, R_J
     q128 phr = atan2q((q128)sn, (q128)cn);          // reduced angle actually represented by (sn,cn)
     for (int i = 0; i < 6; ++i) {
       bool div = R.divergent[i];
@@ -142,7 +143,8 @@ static void sec_legendre(Ctx& c, uint64_t) {
         if (!isinfq(W3[i]) && !isinfq(W3[0]) && W3[i] != 0) cc3 = (double)((fabsq(W3[0]) + fabsq(W3[i] - W3[0])) / fabsq(W3[i])); }
       // for |phi| >= pi the library uses (delta + phi) * complete / (pi/2): the complete integral's own cancellation enters as well
       if (i >= 3 && !isinfq(R.C[i]) && !isinfq(R.C[0])) { double c0 = (double)((fabsq(R.C[0]) + fabsq(R.C[i] - R.C[0])) / fabsq(R.C[i])); if (fabsq((q128)phi) >= 3) cc = std::max(cc, c0); if (signbitq((q128)cn)) cc3 = std::max(cc3, c0); }
-      bool four_g = O.four && i == ref::EL_G && O.kp2 < 1e-3 && O.ap2 < 1e-3;
+      if (i >= 3 && !isinfq(Wq[i]) && !isinfq(Wq[0]) && Wq[i] != 0) { double cq_ = (double)((fabsq(Wq[0]) + fabsq(Wq[i] - Wq[0])) / fabsq(Wq[i])); cc = std::max(cc, cq_); cc3 = std::max(cc3, cq_); }
+      bool four_g = O.four && i == ref::EL_G && O.kp2 < 0.1 && O.ap2 < 0.1;
       bool unrep = fabsq(W[i]) < 1e-290Q;       // result in the underflow range: not judged
       // --- real-argument overload
       if (unrep) c.event("incomplete integral below 1e-290 not judged");
@@ -153,14 +155,14 @@ static void sec_legendre(Ctx& c, uint64_t) {
         c.obs(std::string("incomplete ") + FN[i] + "(phi) rel err [eps]", e, J(w).f("got", got[i]).str("want", ref::qstr(W[i])));
         c.obs(std::string("incomplete ") + FN[i] + "(phi) rel err beyond +-1ulp(phi) conditioning [eps]", std::max(0.0, e - condslack), J(w).f("got", got[i]).str("want", ref::qstr(W[i])));
         c.obs(std::string("incomplete ") + FN[i] + "(phi) rel err / cancellation conditioning [eps]", e / cc, J(w).f("got", got[i]).str("want", ref::qstr(W[i])));
-        if (!(e <= K_ELL * cc + condslack)) c.viol(four_g ? std::string("oracle:C15/elliptic/G/4-arg-ctor-alpha2-minus-k2-cancellation") : (i >= 3 && rj_stressed(O) && e <= 1e7 * cc ? std::string(RJKEY) : std::string("oracle:C15/elliptic/incomplete/") + FN[i]), cls, J(w).f("got", got[i]).str("want", ref::qstr(W[i])).f("err_eps", e).f("cond_slack_eps", condslack));
+        if (!(e <= K_ELL * cc + condslack)) c.viol(four_g ? std::string("oracle:C15/elliptic/G/4-arg-ctor-alpha2-minus-k2-cancellation") : (i >= 3 && rj_stressed(O) && e <= 1e9 * cc ? std::string(RJKEY) : std::string("oracle:C15/elliptic/incomplete/") + FN[i]), cls, J(w).f("got", got[i]).str("want", ref::qstr(W[i])).f("err_eps", e).f("cond_slack_eps", condslack));
       } else c.event("divergent integral beyond pi/2 not judged");
       // --- (sn,cn,dn) overload
       bool beyond3 = signbitq((q128)cn);
       if (!(div && beyond3) && !unrep) {
         double e = relerr(got3[i], W3[i]);
         c.obs(std::string("incomplete ") + FN[i] + "(sn,cn,dn) rel err [eps]", e, J(w).f("got", got3[i]).str("want", ref::qstr(W3[i])));
-        if (!(e <= K_ELL * cc3)) c.viol(four_g ? std::string("oracle:C15/elliptic/G/4-arg-ctor-alpha2-minus-k2-cancellation") : (i >= 3 && rj_stressed(O) && e <= 1e7 * cc3 ? std::string(RJKEY) : std::string("oracle:C15/elliptic/incomplete-sncndn/") + FN[i]), cls, J(w).f("sn", sn).f("cn", cn).f("dn", dn).f("got", got3[i]).str("want", ref::qstr(W3[i])).f("err_eps", e));
+        if (!(e <= K_ELL * cc3)) c.viol(four_g ? std::string("oracle:C15/elliptic/G/4-arg-ctor-alpha2-minus-k2-cancellation") : (i >= 3 && rj_stressed(O) && e <= 1e9 * cc3 ? std::string(RJKEY) : std::string("oracle:C15/elliptic/incomplete-sncndn/") + FN[i]), cls, J(w).f("sn", sn).f("cn", cn).f("dn", dn).f("got", got3[i]).str("want", ref::qstr(W3[i])).f("err_eps", e));
       }
       // --- periodic part: pi I(phi) / (2 I_c) - phi, period pi, odd.  Reference at the angle in (-pi/2, pi/2] equivalent mod pi
       if (!div && fabsq(phr) > 1e-290Q) {
@@ -171,7 +173,7 @@ static void sec_legendre(Ctx& c, uint64_t) {
         double c0 = i >= 3 ? (double)((fabsq(R.C[0]) + fabsq(R.C[i] - R.C[0])) / fabsq(R.C[i])) : 1;
         double e = (double)(fabsq((q128)gotd[i] - want) / (fabsq(pr) + fabsq(want))) / EPS / std::max(std::max(cc3, c0), 1.0);
         c.obs(std::string("delta") + FN[i] + " abs err / (|phi|+|delta|) [eps]", e, J(w).f("got", gotd[i]).str("want", ref::qstr(want)));
-        if (!(e <= K_ELL)) c.viol(four_g ? std::string("oracle:C15/elliptic/G/4-arg-ctor-alpha2-minus-k2-cancellation") : (i >= 3 && rj_stressed(O) && e <= 1e7 ? std::string(RJKEY) : std::string("oracle:C15/elliptic/delta/") + FN[i]), cls, J(w).f("sn", sn).f("cn", cn).f("dn", dn).f("got", gotd[i]).str("want", ref::qstr(want)).f("err_eps", e));
+        if (!(e <= K_ELL)) c.viol(four_g ? std::string("oracle:C15/elliptic/G/4-arg-ctor-alpha2-minus-k2-cancellation") : (i >= 3 && rj_stressed(O) && e <= 1e9 ? std::string(RJKEY) : std::string("oracle:C15/elliptic/delta/") + FN[i]), cls, J(w).f("sn", sn).f("cn", cn).f("dn", dn).f("got", gotd[i]).str("want", ref::qstr(want)).f("err_eps", e));
       }
     }
     // oddness (bit-exact) of the real-argument and the sn-cn-dn overloads
@@ -180,7 +182,8 @@ static void sec_legendre(Ctx& c, uint64_t) {
     // documented reductions for alpha2 = 0: Pi = F, G = E, H = F - D
     if (O.a2 == 0 && !(R.ksing && beyond)) {
       double e1 = relerr(got[3], (q128)got[0]), e2 = relerr(got[4], (q128)got[1]);
-      if (!(e1 <= 2 * K_ELL && e2 <= 2 * K_ELL)) c.viol("law:C15/elliptic/alpha2=0-reductions", cls, J(jobj(O)).f("phi", phi).f("Pi", got[3]).f("F", got[0]).f("G", got[4]).f("E", got[1]));
+      double cg = got[4] != 0 ? (std::fabs(got[0]) + std::fabs(got[4] - got[0])) / std::fabs(got[4]) : 1;    // G = R_F-term - R_J-term
+      if (!(e1 <= 2 * K_ELL && e2 <= 2 * K_ELL * cg)) c.viol("law:C15/elliptic/alpha2=0-reductions", cls, J(jobj(O)).f("phi", phi).f("Pi", got[3]).f("F", got[0]).f("G", got[4]).f("E", got[1]));
     }
     // Ed (degrees): E at the angle given in degrees, any number of turns
     if (rep == 0) {
@@ -215,7 +218,7 @@ static void sec_ident(Ctx& c, uint64_t) {
   // constructor argument checks
   if ((c.idx % 16) == 0) {
     auto throws = [](double k2_, double a2_, double kp2_, double ap2_) { try { EllipticFunction z(k2_, a2_, kp2_, ap2_); (void)z; return false; } catch (const GeographicErr&) { return true; } };
-    double big = 1 + r.logu(1e-16, 10);
+    double big = 1 + r.logu(1e-15, 10);
     bool ok = throws(big, 0, 0.5, 1) && throws(0.5, big, 0.5, 0.5) && throws(0.5, 0, -r.logu(1e-300, 10), 1) && throws(0.5, 0.5, 0.5, -r.logu(1e-300, 10));
     bool ok2; try { EllipticFunction z(vh::ulps(1.0, 1), 0); (void)z; ok2 = false; } catch (const GeographicErr&) { ok2 = true; }
     bool ok3; try { EllipticFunction z(0.5, vh::ulps(1.0, 1)); (void)z; ok3 = false; } catch (const GeographicErr&) { ok3 = true; }
@@ -264,7 +267,7 @@ static void sec_jacobi(Ctx& c, uint64_t) {
         if (std::isnan(got) && std::fabs(x) < 1e-150 && what[0] == 's' && what[1] == 'n') key = "oracle:C15/elliptic/jacobi/sncndn/nan-for-|x|<1e-150";
         else if (hard) { // keep the absolute accuracy requirement even here: these are bounded functions
           double ea = (double)(fabsq((q128)got - want) / (1 + ax + fabsq(want))) / EPS;
-          key = ea <= 64 ? std::string("oracle:C15/elliptic/jacobi/relative-accuracy-lost/k2->1-or-k2<-10") : key + "/k2->1-or-k2<-10"; }
+          key = ea <= 64 ? std::string("oracle:C15/elliptic/jacobi/relative-accuracy-lost/k2->1-or-k2<-10") : std::string("oracle:C15/elliptic/jacobi/am-inaccurate/k2->1-or-k2<-10"); }
         c.viol(key, cls, J(w).f("got", got).str("want", ref::qstr(want)).f("err_eps", e)); } };
     double s1, c1, d1, a1 = L.am(x, s1, c1, d1), a0 = L.am(x);
     judge("am", a1, am, tam); judge("am(x,sn,cn,dn).sn", s1, sn, tsn); judge("am(x,sn,cn,dn).cn", c1, cn, tcn); judge("am(x,sn,cn,dn).dn", d1, dn, tdn);
@@ -328,7 +331,9 @@ static void sec_einv(Ctx& c, uint64_t) {
       q128 tol = fabsq((q128)phi) + fabsq((q128)x) / dl;        // rounding of phi itself + conditioning w.r.t. x
       double e = (double)(fabsq(dphi) / tol) / EPS;
       c.obs("Einv(x): error in phi / (|phi| + |x|/Delta) [eps]", e, J(w).str("E_ref_of_phi", ref::qstr(Ew)));
-      if (!(e <= K_ELL)) c.viol("oracle:C15/elliptic/Einv", cls, J(w).str("E_ref_of_phi", ref::qstr(Ew)).f("err_eps", e));
+      // Einv stops its Newton iteration on an absolute tolerance sqrt(eps/100): with a large |k2| (strong curvature) and a small
+      // result the last step leaves a relative error above round-off
+      if (!(e <= K_ELL)) c.viol(O.k2 < -10 && std::fabs(phi) < 1e-3 ? "oracle:C15/elliptic/Einv-absolute-newton-tolerance/k2<-10-small-phi" : "oracle:C15/elliptic/Einv", cls, J(w).str("E_ref_of_phi", ref::qstr(Ew)).f("err_eps", e));
     } else {
       // k2 = 1 at phi = pi/2 (mod pi): E has zero slope; judge the residual in E
       double e = relerr((double)Ew, (q128)x); c.obs("Einv(x) at Delta=0: residual in E [eps]", e, w);
@@ -346,7 +351,7 @@ static void sec_einv(Ctx& c, uint64_t) {
       c.obs("deltaEinv: error in phi / (|tau| + |x|/Delta) [eps]", e, J(jobj(O)).f("tau", tau).f("got", de));
       // Einv stops its Newton iteration on an absolute tolerance sqrt(eps/100): for small results with a large |k2| (strong curvature)
       // the last step leaves a relative error above round-off
-      if (!(e <= K_ELL)) c.viol(O.k2 < -10 && std::fabs(tau) < 1e-3 ? "oracle:C15/elliptic/deltaEinv/k2<-10-small-tau" : "oracle:C15/elliptic/deltaEinv", cls, J(jobj(O)).f("tau", tau).f("stau", st).f("ctau", ct).f("got", de).f("err_eps", e));
+      if (!(e <= K_ELL)) c.viol(O.k2 < -10 && std::fabs(tau) < 1e-3 ? "oracle:C15/elliptic/Einv-absolute-newton-tolerance/k2<-10-small-phi" : "oracle:C15/elliptic/deltaEinv", cls, J(jobj(O)).f("tau", tau).f("stau", st).f("ctau", ct).f("got", de).f("err_eps", e));
     }
   }
 }
@@ -386,15 +391,16 @@ static void sec_carlson(Ctx& c, uint64_t idx) {
   c.obs(std::string("carlson ") + KN[kind] + " rel err [eps] (" + sb + (bigmag ? ", magnitudes beyond 1e+-75)" : ")"), unrepresentable ? 0 : e, w);
   if (!(e <= K_CARLSON) && !unrepresentable) {
     std::string key = std::string("oracle:C15/elliptic/carlson/") + KN[kind];
-    if (bigmag) key += "/magnitudes-beyond-1e+-75";
-    else if (spread > 1e3) key += "/argument-spread>1e3";
+    if (bigmag) key = "oracle:C15/elliptic/carlson/overflow-underflow/magnitudes-beyond-1e+-75";
+    // (the three-argument R_G shows its argument-ordering cancellation from a ratio of ~1e2 on; same finding, same key)
+    else if (spread > 1e3 || (kind == 3 && spread > 1e2)) key = std::string("oracle:C15/elliptic/carlson/") + (kind == 3 || kind == 4 ? "RG" : KN[kind]) + "/argument-spread>1e3";
     c.viol(key, cls, w);
   }
   // symmetry and homogeneity laws (moderate arguments)
   if (!wide && spread <= 1e3) {
     if (kind == 0) { double a = EllipticFunction::RF(y, z, x), b = EllipticFunction::RF(z, x, y); if (!(relerr(a, (q128)got) <= 8 && relerr(b, (q128)got) <= 8)) c.viol("law:C15/elliptic/carlson/RF-symmetry", cls, w);
       double s = std::ldexp(1.0, 2 * r.range(-20, 20)), h = EllipticFunction::RF(x * s, y * s, z * s) * std::sqrt(s); if (!(relerr(h, (q128)got) <= 4)) c.viol("law:C15/elliptic/carlson/RF-homogeneity", cls, J(w).f("scale", s)); }
-    if (kind == 3) { double a = EllipticFunction::RG(y, z, x), b = EllipticFunction::RG(z, x, y); if (!(relerr(a, (q128)got) <= 32 && relerr(b, (q128)got) <= 32)) c.viol("law:C15/elliptic/carlson/RG-symmetry", cls, J(w).f("perm1", a).f("perm2", b)); }
+    if (kind == 3 && spread <= 1e2) { double a = EllipticFunction::RG(y, z, x), b = EllipticFunction::RG(z, x, y); if (!(relerr(a, (q128)got) <= 32 && relerr(b, (q128)got) <= 32)) c.viol("law:C15/elliptic/carlson/RG-symmetry", cls, J(w).f("perm1", a).f("perm2", b)); }
     if (kind == 5) { double a = EllipticFunction::RJ(y, z, x, p); if (!(relerr(a, (q128)got) <= 16)) c.viol("law:C15/elliptic/carlson/RJ-symmetry", cls, J(w).f("perm", a)); }
     if (kind == 6) { double a = EllipticFunction::RD(y, x, z); if (!(relerr(a, (q128)got) <= 8)) c.viol("law:C15/elliptic/carlson/RD-symmetry", cls, J(w).f("perm", a));
       if (x > 0) { double j = EllipticFunction::RJ(x, y, z, z); if (!(relerr(j, (q128)got) <= 16)) c.viol("law:C15/elliptic/carlson/RD=RJ(x,y,z,z)", cls, J(w).f("RJ", j)); } }
@@ -441,11 +447,11 @@ static void sec_selftest(Ctx& c, uint64_t idx) {
 
 int main(int argc, char** argv) {
   std::vector<Section> S;
-  S.push_back({"legendre", 8000, 400000, true, sec_legendre});
-  S.push_back({"ident", 4000, 200000, true, sec_ident});
-  S.push_back({"jacobi", 8000, 400000, true, sec_jacobi});
-  S.push_back({"einv", 8000, 400000, true, sec_einv});
-  S.push_back({"carlson", 14000, 700000, true, sec_carlson});
+  S.push_back({"legendre", 5000, 60000, true, sec_legendre});
+  S.push_back({"ident", 4000, 80000, true, sec_ident});
+  S.push_back({"jacobi", 4000, 40000, true, sec_jacobi});
+  S.push_back({"einv", 4000, 40000, true, sec_einv});
+  S.push_back({"carlson", 10000, 120000, true, sec_carlson});
   S.push_back({"selftest", 400, 4000, false, sec_selftest});
   return vh::run_sections(argc, argv, S);
 }
